@@ -46,6 +46,9 @@ type threadCtx struct {
 	cands        map[string][]rfCand
 	atomics      map[string]bool
 	deltas       map[string][]int64
+	seqs         map[string][]otherSeqs
+	prevP        map[string]*Term // "cell|otherThread" -> last prefix index
+	trVar        map[string]*Term // other thread -> trace selector
 	muteCells    int
 	foreignChans map[string]*Chan
 	lastMapEv    *SEvent
